@@ -93,7 +93,24 @@ package data
 
 // (shape: a generated optional field that says "value" holds one -- the generated builders set the
 // two together.)
+// The one-shot encoders return exactly the slice the append-encoder produced for this very node,
+// started from an empty buffer: whole, whatever its length (a result rebuilt from a scratch buffer
+// loses what the append had to reallocate).
+//@ func data.EncodeUnixFSData
+//@ prop C07 C09
+//@ shape an-mtime-that-exists-holds-a-value: node.Mtime.m == 2 ==> node.Mtime.v != nil
+//@ at call data.AppendEncodeUnixFSData#1 assert encodes-this-node-from-an-empty-buffer: callee_node == node && len(callee_enc) == 0
+//@ ensures returns-the-whole-encoding-of-this-node: encodedNode(base(result)) == node && len(result) == encodedLen(base(result))
+
+//@ func data.EncodeUnixFSMetadata
+//@ prop C09
+//@ at call data.AppendEncodeUnixFSMetadata#1 assert encodes-this-node-from-an-empty-buffer: callee_node == node && len(callee_enc) == 0
+//@ ensures returns-the-whole-encoding-of-this-node: encodedNode(base(result)) == node && len(result) == encodedLen(base(result))
+
 //@ func data.AppendEncodeUnixFSData
+//@ at return ghost encodedNode(base(result)) = node
+//@ at return ghost encodedLen(base(result)) = len(result)
+//@ ensures records-what-it-encoded: encodedNode(base(result)) == node && encodedLen(base(result)) == len(result)
 //@ shape an-mtime-that-exists-holds-a-value: node.Mtime.m == 2 ==> node.Mtime.v != nil
 // C09 (encode side): each logical field is written under the schema's wire number and wire type, only
 // when it is present, with its own value.
@@ -121,6 +138,9 @@ package data
 
 //@ func data.AppendEncodeUnixFSMetadata
 //@ prop C09
+//@ at return ghost encodedNode(base(result)) = node
+//@ at return ghost encodedLen(base(result)) = len(result)
+//@ ensures records-what-it-encoded: encodedNode(base(result)) == node && encodedLen(base(result)) == len(result)
 //@ ensures encoded-length-without-mime-type: node.MimeType.m != 2 ==> len(result) == len(enc)
 //@ ensures encoded-length-with-mime-type: node.MimeType.m == 2 ==> len(result) == len(enc) + sizeTag(1) + sizeVarint(uint64(len(node.MimeType.v.x))) + len(node.MimeType.v.x)
 //@ at call google.golang.org/protobuf/encoding/protowire.AppendTag#1 assert MimeType-is-wire-number-1: callee_num == 1 && callee_typ == 2 && node.MimeType.m == 2
